@@ -57,7 +57,7 @@ def replay_pvv(pin, pan, idx, key, ct_model, via):
     return False, 'ok', None
 
 
-def replay_zmk(parts):
+def replay_zmk(parts, master=None, kcvkeys=None):
     from cardutil import key
     from cryptography.hazmat.primitives.ciphers import Cipher, modes
     from cryptography.hazmat.decrepit.ciphers import algorithms as d_algorithms
@@ -76,7 +76,13 @@ def replay_zmk(parts):
     k0 = (e.update(bytes(8)) + e.finalize()).hex()
     if kcv != k0[:6]:
         return True, 'kcv %s, E(key,0) starts %s' % (kcv, k0[:6]), 'C14/kcv'
-    master = '0123456789abcdeffedcba9876543210'
+    for kk in kcvkeys or []:
+        e = Cipher(d_algorithms.TripleDES(bytes.fromhex(kk)), modes.ECB()).encryptor()
+        want_k = (e.update(bytes(8)) + e.finalize()).hex()[:6]
+        got_k = key.calculate_kcv(bytes.fromhex(kk))
+        if got_k != want_k:
+            return True, 'KCV of %d-byte key %s is %s, E(key, zeros) starts %s' % (len(kk) // 2, kk, got_k, want_k), 'C14/kcv'
+    master = master or '0123456789abcdeffedcba9876543210'
     enc, kcv2 = key.get_enc_zone_master_key(master, *parts)
     e = Cipher(d_algorithms.TripleDES(bytes.fromhex(master)), modes.ECB()).encryptor()
     wantenc = (e.update(bytes.fromhex(want)) + e.finalize()).hex()
